@@ -1,6 +1,6 @@
 (** * C15 correspondence cases and monitors: canary nodes valid, distinct, stable, as many as requested. *)
 From EDS Require Import Model.Objects Model.Fitness Model.PodSpec Model.Default Model.Canary Model.EdsLogic
-     Model.EdsReconcile Check.World Check.C08Check Proofs.Lists Proofs.EdsInv Proofs.C15Sync.
+     Model.EdsReconcile Check.World Check.C08Check Proofs.Lists Proofs.EdsInv Proofs.C15Sync Proofs.C15Spread.
 
 Definition case := World.case.
 
@@ -40,7 +40,17 @@ Definition mon_status (sn : eds_snapshot) (e : eds) (cspec : canary_spec) (u : e
                        forallb (fun a => memN a prev ||
                                   forallb (fun n => memN (n_name n) nodes' || negb (fit (r_tmpl u) n) ||
                                                     (node_restarts (eds_pods sn e) a <=? node_restarts (eds_pods sn e) (n_name n)))
-                                          (canary_candidate_nodes sn cspec)) nodes') 17
+                                          (canary_candidate_nodes sn cspec)) nodes') 17 ++
+              (* spreading, with anti-affinity keys ([C15_spreading]): after a selection no value of the keys is carried by more
+                 canary nodes than the quota - replicas over the number of distinct values among the candidates, rounded up -
+                 unless the nodes kept from before already exceeded it *)
+              (let keys := ca_antiaffinity cspec in
+               let cands := canary_candidate_nodes sn cspec in
+               let still := filter (valid_nodeb sn cspec u) prev in
+               let values := zlen (aa_init keys cands still) in
+               code_if (negb changed || Nat.eqb (length keys) 0 || negb (nodupNb (map n_name cands)) || es_fail_list_cluster sn ||
+                        forallb (fun n => let v := aa_value keys n in
+                                          cnt keys cands nodes' v <=? Z.max (cnt keys cands still v) (Z.quot (nb + values - 1) values)) cands) 21)
           | None => [16%N]
           end
       | None => [16%N]
